@@ -378,24 +378,37 @@ def r5_double_accounting(ctx, P):
 
 def r6_counted_per_iteration(ctx, P):
     R = "C06.R6"
-    ctx.rule(R, "loops that write the result of user code (Clone::clone) into the spare capacity count each element before the "
-                "next user call: every path from the clone call back to itself passes a length update (inc_len / set_len / "
-                "push_unchecked / store to len); otherwise a panicking clone leaves written elements outside the length (never dropped)")
+    ctx.rule(R, "loops that write the result of user code (Clone::clone, Iterator::next, a closure) into spare capacity count each "
+                "element before the next user call: every path from the raw write back to the user call passes a length update "
+                "(inc_len / set_len / push_unchecked / store to len); otherwise a panicking callback leaves written elements outside "
+                "the length (never dropped, or overwritten by the tail move-back). Bodies whose progress is tracked by a tabled "
+                "guard (C06.R2) are exempt")
+    LENUP = {"inc_len", "set_len", "push_unchecked", "push_mut_unchecked"}
     n = 0
-    for b in P.fn_bodies():
-        if not re.search(r"::generic_extend_from_within_clone$", b.path):
+    for b in coll_bodies(P):
+        if any(re.search(prx, b.path) for prx, crx, g, why in GUARDED):
             continue
-        clones = [(s_, t) for s_, t in b.calls() if t["f"].get("path") == "core::clone::Clone::clone" and b.can_reach(s_, s_, cleanup=False)]
-        lens = [s_.bb for s_, t in b.calls() if t["f"].get("name") in ("inc_len", "set_len", "push_unchecked", "push_mut_unchecked")]
+        users = [(s_, t, nm) for s_, t, nm in direct_user_sites(b) if not nm.startswith("drop") and b.can_reach(s_, s_, cleanup=False)]
+        if not users:
+            continue
+        writes = [(s_, t) for s_, t in b.calls() if t["f"].get("name") == "write" and t["f"].get("krate") == "core" and b.can_reach(s_, s_, cleanup=False)]
+        if not writes:
+            continue
+        lens = [s_.bb for s_, t in b.calls() if t["f"].get("name") in LENUP]
         lens += [s_.bb for s_, st in b.assigns() if st["p"]["p"] and isinstance(st["p"]["p"][-1], dict) and st["p"]["p"][-1].get("n") == "len"]
-        for k, (cs, ct) in enumerate(clones):
-            n += 1
-            ok, _ = b.must_pass(cs, lens, exits=(cs.bb,), cleanup=False)
-            ctx.inst(R, b.path, ok, "each clone is written and counted before the next clone runs" if ok else
-                     "a path leads from one clone call to the next without updating the length: if the second clone panics the "
-                     "first one's result has been written but is not part of the vector - it is never dropped", where=b.where(cs),
-                     site=f"clone loop #{k} counts per iteration")
-    ctx.floor(R, "clone loops in extend_from_within_clone", n, 6)
+        k = 0
+        for ws, wt in writes:
+            for us, ut, nm in users:
+                if not (b.can_reach(ws, us, cleanup=False) and b.can_reach(us, ws, cleanup=False)):
+                    continue
+                n += 1
+                ok, _ = b.must_pass(ws, lens, exits=(us.bb,), cleanup=False)
+                ctx.inst(R, b.path, ok, f"each result of `{nm}` is written and counted before `{nm}` runs again" if ok else
+                         f"a path leads from the raw write of an element back to `{nm}` without updating the length: if the callback "
+                         "panics then, the elements written so far are not part of the collection - they are never dropped (or are "
+                         "overwritten when the tail is moved back)", where=b.where(ws), site=f"{nm} loop #{k} counts per iteration")
+                k += 1
+    ctx.floor(R, "callback/write loops without a guard", n, 4 if "nodefault" in (ctx.config or "") else 5)
 
 
 def r7_forgotten_callback_results(ctx, P):
